@@ -212,6 +212,11 @@ THEOREMS = (
     "triplet_handle_continuousOn",
     "stereo_continuousOn",
     "downmix_continuousOn",
+    "quad_on_edge",
+    "quad_edge_agreement",
+    "quad_edge_agreement'",
+    "ngon_candidate_on_edge",
+    "ngon_on_edge",
     "C12_partial",
 )
 
@@ -226,8 +231,8 @@ class C12(Spec):
         "only up to the 1e-11 acceptance slack and only if the regions cover the sphere: both are searched, not proved",
     )
     assumptions = (
-        "layouts: the ten nominal layouts and a fixed catalogue of admissible symmetric real layouts (harness/c05.py "
-        "real_catalogue; same admissibility rules as C05)",
+        "layouts: the ten nominal layouts, a fixed catalogue of admissible symmetric real layouts and the fixed catalogue of "
+        "boundary-valued real layouts (harness/c05.py real_catalogue, boundary_catalogue; same admissibility rules as C05)",
         "a jump is a change of some gain larger than %g + %g*L*angle between two directions %g rad apart, L = largest "
         "|dg|/angle seen on the same path at angles >= %g (a steep but continuous change does not alarm)" % (JUMP_ABS, L_SAFETY, FINAL_ANGLE, L_MIN_ANGLE),
     )
@@ -286,9 +291,13 @@ REGISTRY = dict(
     text="PARTIAL: Lean theorems over the reals for every loudspeaker position (Earverif.PointSource.triplet_continuousOn, "
     "triplet_handle_continuousOn, downmix_continuousOn, stereo_continuousOn: each handler/wrapper is continuous on its "
     "acceptance set; edge_unique, edge_exists, triplet_on_edge, edge_agreement: on a shared edge the gains are uniquely "
-    "determined and two adjacent triplets return exactly the same pair with the third gain 0; conjunction C12_partial). "
+    "determined and two adjacent triplets return exactly the same pair with the third gain 0; quad_on_edge, "
+    "quad_edge_agreement, quad_edge_agreement': given the roots, the bilinear quad returns the same pair on each of its four "
+    "edges when its velocity vector is parallel to the direction; ngon_candidate_on_edge, ngon_on_edge: a virtual n-gon "
+    "returns the same pair on its outer edges when the earlier inner triplets reject; conjunction C12_partial). "
     "NOT proved (searched): continuity of the composed panner everywhere, which additionally needs the regions to cover the "
-    "sphere and a treatment of the 1e-11 acceptance slack, and the n-gon/quad versions of edge agreement.",
+    "sphere and a treatment of the 1e-11 acceptance slack, the unconditional n-gon/quad versions of edge agreement (root selection of np.roots, order of the inner triplets) "
+    "and continuity of the n-gon handler.",
     note="Model, driver and correspondence are C05's (re-run here). Search: great circles and meridians through every region "
     "edge, vertex, pole and loudspeaker + full circles, bisected to 1e-9 rad; jump threshold 1e-6 + 4*L*angle.",
     technique="Lean 4 continuity/uniqueness proofs over the reals on the scalar-polymorphic model + differential correspondence "
